@@ -249,7 +249,8 @@ TIE_TEXT = {
               "emergency_halt, comment, add_hook/remove_hook and their helpers in gscrib/gcode_builder.py and gscrib/gcode_core.py) and "
               "Props/MotionTie.lean (18 theorems; set_length_units, the mode context managers as enter / exit pairs, and MotionTie_run: for every history the translated source yields the builder and the statements the model yields) re-proved for every state, finite target, parameter list and hook list: same outcome, same builder "
               "afterwards (a rejected call leaves it untouched: MotionTie_reject_unchanged/_silent), same statements in the same order "
-              "(instruction, axis words, other words, the G90/G91 bracket), same hook calls with the true origin and target.",
+              "(instruction, axis words, other words, the G90/G91 bracket), same hook calls with the true origin and target; Props/SourceTie.lean "
+              "(SourceTie_C01, SourceTie_C02, same audit) restates C01 and C02 for the translated source with machines that read instruction texts.",
     "point": " Translator tie: Point.resolve/replace/mask/combine/within_bounds of gscrib/geometry/point.py are translated by AST into Lean on "
              "every run (tools/gen_point.py -> Gen/PointSrc.lean) and Props/PointTie.lean re-proved: the models' point operations equal the "
              "translated methods; the translator is validated against the real class through driver mode point.",
